@@ -67,13 +67,13 @@ void h_set_flow_def_held(void)
     VIN(uint8_t, has_def); VIN(uint8_t, st);
     if (has_def & 1) { s->flow_def = vs_make_uref(true, 5, 0); VASSUME(s->flow_def != NULL); }
     s->output_state = (st & 1) && WITH_OUTPUT && (has_def & 1) ? UPIPE_HELPER_OUTPUT_VALID : UPIPE_HELPER_OUTPUT_NONE;
-    struct uref *def_old = s->flow_def; int state_old = s->output_state; bool reg_old = s->ubuf_mgr_request.registered; struct ubuf_mgr *mgr_old = s->ubuf_mgr;
+    struct uref *def_old = s->flow_def; int state_old = s->output_state; struct ubuf_mgr *mgr_old = s->ubuf_mgr;
     struct uref *nd = vs_make_uref(true, 9, 0); VASSUME(nd != NULL);
     g_req_registered = g_req_unregistered = g_req_offered = 0;
     int ev0 = gs_ev_nonlog, in0 = gs_out_inputs, sd0 = gs_out_setdef, reg0 = gs_out_reg, live0 = gs_uref_live;
     int ret = upipe_genaux_set_flow_def(upipe, nd);
     /* the definition did not overtake the held buffers */
-    VPOST(s->flow_def == def_old && (int)s->output_state == state_old && s->ubuf_mgr == mgr_old && s->ubuf_mgr_request.registered == reg_old);
+    VPOST(s->flow_def == def_old && (int)s->output_state == state_old && s->ubuf_mgr == mgr_old);
     VPOST(gs_out_inputs == in0 && gs_out_setdef == sd0 && gs_out_reg == reg0 && gs_ev_nonlog - ev0 <= 1);
     VPOST(g_req_registered == 0 && g_req_unregistered == 0 && g_req_offered == 0);                           /* no new buffer-manager request yet */       /* nothing sent (a fatal event if the dictionary could not be written) */
     /* held list: the same buffers, same order, then (if accepted) one more element: the duplicated definition */
